@@ -18,6 +18,15 @@ GUARD_BOUNDS = dict(
     slice_prefix_bytes=64, slice_size_scaler=64,
 )
 MAX_LUMA = 64
+
+
+def short(value):
+    """repr() that never converts a huge int to decimal (Python >= 3.11 refuses beyond 4300 digits)"""
+    if isinstance(value, int) and not isinstance(value, bool) and abs(value) >= (1 << 64):
+        return "%s~2^%d" % ("-" if value < 0 else "", value.bit_length())
+    return repr(value)
+
+
 VGUARD_TRIPPED = [None]  # set when the validator guard fires (the CLI swallows the exception)
 
 
@@ -25,8 +34,8 @@ def _guarded(orig):
     def assert_level_constraint(state, key, value):
         b = GUARD_BOUNDS.get(key)
         if b is not None and isinstance(value, int) and value > b:
-            VGUARD_TRIPPED[0] = "%s=%r" % (key, value)
-            raise OutOfScope("%s=%r" % (key, value))
+            VGUARD_TRIPPED[0] = "%s=%s" % (key, short(value))
+            raise OutOfScope("%s=%s" % (key, short(value)))
         if key == "wavelet_index":
             # first picture-level constraint: picture dimensions known (covers base-format sizes)
             if state.get("luma_width", 0) > MAX_LUMA or state.get("luma_height", 0) > MAX_LUMA:
@@ -170,8 +179,8 @@ def _deser_guarded(orig):
         for k, b in DESER_BOUNDS.items():
             v = state.get(k, 0)
             if isinstance(v, int) and v > b:
-                GUARD_TRIPPED[0] = "%s=%r" % (k, v)
-                raise OutOfScope("%s=%r" % (k, v))
+                GUARD_TRIPPED[0] = "%s=%s" % (k, short(v))
+                raise OutOfScope("%s=%s" % (k, short(v)))
         return orig(serdes, state, *args, **kwargs)
 
     return guarded
